@@ -6,8 +6,15 @@
 (* Writers may crash at every program point; readers open (snapshot of the    *)
 (* entry) and then read.  InPlace = TRUE is the buggy variant that opens the  *)
 (* target with truncation (kept to show the invariants are not vacuous).      *)
+(* Faults = TRUE adds what the environment can do to a writer short of        *)
+(* killing it: creating the temporary file fails (name too long, no inodes),  *)
+(* a write to it fails part way (disk full, quota, file size limit).  OnError *)
+(* is what the caller (clvmc::compile_clvm) does when the staged replacement  *)
+(* reports an error: "report" (the code: the error is returned, the target    *)
+(* is as it was) or "inplace" (fall back to writing the target directly; the  *)
+(* variant TLC refutes).                                                      *)
 EXTENDS Integers, Sequences, FiniteSets, TLC
-CONSTANTS Writers, NChunks, InitKind, InPlace
+CONSTANTS Writers, NChunks, InitKind, InPlace, Faults, OnError
 \* InitKind \in {"absent", "same", "different", "readonly", "readonly_same"}
 
 T == "target"
@@ -65,6 +72,34 @@ Persist(w) == /\ pc[w] = "persist"
               /\ dir' = [dir EXCEPT ![T] = tmp[w]]
               /\ pc' = [pc EXCEPT ![w] = "ok"]
               /\ UNCHANGED <<data, tmp, prev, snap, seen, inodes>>
+\* ---- faults of the environment and the caller's reaction ------------------------------
+\* where a writer whose staged replacement failed goes next
+AfterFailure(w) == IF IsSame(w) THEN "ok" ELSE IF OnError = "inplace" THEN "fallback" ELSE "err"
+\* the temporary sibling cannot be created although the directory is writable
+TempFails(w) == /\ Faults /\ ~InPlace /\ pc[w] = "astart" /\ DirWritable
+                /\ pc' = [pc EXCEPT ![w] = AfterFailure(w)]
+                /\ UNCHANGED <<dir, data, tmp, prev, snap, seen, inodes>>
+\* a write to the temporary file fails: the partial temporary is abandoned (removed when its handle is dropped)
+WriteFails(w) == /\ Faults /\ ~InPlace /\ pc[w] = "write"
+                 /\ pc' = [pc EXCEPT ![w] = AfterFailure(w)]
+                 /\ tmp' = [tmp EXCEPT ![w] = 0]
+                 /\ UNCHANGED <<dir, data, prev, snap, seen, inodes>>
+\* OnError = "inplace": open(T, O_TRUNC | O_CREAT), then the chunks, any of which may fail in turn
+FallbackOpen(w) == /\ pc[w] = "fallback"
+                   /\ inodes' = inodes + 1
+                   /\ data' = (inodes + 1 :> <<>>) @@ data
+                   /\ dir' = [dir EXCEPT ![T] = inodes + 1]
+                   /\ tmp' = [tmp EXCEPT ![w] = inodes + 1]
+                   /\ pc' = [pc EXCEPT ![w] = "fbwrite"]
+                   /\ UNCHANGED <<prev, snap, seen>>
+FallbackWrite(w) == /\ pc[w] = "fbwrite"
+                    /\ LET k == Len(data[tmp[w]]) + 1 IN
+                       /\ data' = [data EXCEPT ![tmp[w]] = Append(@, ContentOf(w)[k])]
+                       /\ pc' = [pc EXCEPT ![w] = IF k = Len(ContentOf(w)) THEN "ok" ELSE "fbwrite"]
+                    /\ UNCHANGED <<dir, tmp, prev, snap, seen, inodes>>
+FallbackFails(w) == /\ Faults /\ pc[w] = "fbwrite"
+                    /\ pc' = [pc EXCEPT ![w] = "err"]
+                    /\ UNCHANGED <<dir, data, tmp, prev, snap, seen, inodes>>
 Crash(w) == /\ pc[w] \notin {"ok", "err", "dead"}
             /\ pc' = [pc EXCEPT ![w] = "dead"]
             /\ UNCHANGED <<dir, data, tmp, prev, snap, seen, inodes>>
@@ -72,6 +107,7 @@ ROpen == /\ snap = 0 /\ dir[T] # 0 /\ snap' = dir[T] /\ UNCHANGED <<dir, data, p
 RRead == /\ snap # 0 /\ seen' = seen \cup {data[snap]} /\ snap' = 0 /\ UNCHANGED <<dir, data, pc, tmp, prev, inodes>>
 
 Next == \/ \E w \in Writers : ReadPrev(w) \/ CreateTemp(w) \/ WriteChunk(w) \/ Persist(w) \/ Crash(w)
+        \/ \E w \in Writers : TempFails(w) \/ WriteFails(w) \/ FallbackOpen(w) \/ FallbackWrite(w) \/ FallbackFails(w)
         \/ ROpen \/ RRead
 Spec == Init /\ [][Next]_vars
 
@@ -82,6 +118,10 @@ ReaderSeesComplete == seen \subseteq Complete
 SameContentSucceeds == \A w \in Writers : (pc[w] = "err") => ~IsSame(w)
 \* a writer that returned ok with different contents really replaced the file at some point, or the
 \* file holds a complete content of some writer (sanity of "ok")
+\* a failure of the environment is reported, not papered over: a writer whose new contents never reached the
+\* target does not return ok (unless they equal the old ones)
+FailureIsReported == \A w \in Writers : (pc[w] = "ok" /\ ~IsSame(w) /\ ~InPlace /\ OnError = "report") =>
+                        \E i \in DOMAIN data : data[i] = ContentOf(w)
 OkMeansWritten == \A w \in Writers : (pc[w] = "ok" /\ ~IsSame(w) /\ ~InPlace) => dir[T] # 0
 
 \* ---- one writer run to completion, as a list of hook labels (used by the trace specification) ----
